@@ -433,6 +433,11 @@ def gen_cmd(rng, pop, kind=None):
             a = rng.randrange(0, n)
             return rng.choice([None, (a, None), (a, rng.randrange(a, n))])
         rows, cols = span(h), span(w)
+        if rng.random() < 0.06:
+            # the script's own numbers point outside the matrix (IndexError: not a C12 trigger;
+            # exercised for the correspondence with the model only)
+            big = (h if dims else 255) + rng.randrange(0, 3)
+            rows = rng.choice([(big, None), (0, big), (big + 1, big)])
         if rows is None and cols is None:
             rows = (0, None)
         return ('matrix', name, rows, cols, dur)
@@ -657,7 +662,7 @@ def run(ctx):
     groups = []            # per population: Coq head `mkgroup ...` and its runs `mkrun ...`
     case_info = {}         # id -> replay payload
     stats = {'runs': 0, 'plans_exhaustive_scripts': 0, 'scripts': 0, 'idle_cmds': 0, 'dirty_runs': 0,
-             'aborts': 0, 'abandoned_requests': 0, 'retried_requests': 0, 'kinds': {}, 'cmd_kinds': {}}
+             'aborts': 0, 'self_aborting_scripts': 0, 'abandoned_requests': 0, 'retried_requests': 0, 'kinds': {}, 'cmd_kinds': {}}
     counter = [0]
 
     def new_id():
@@ -673,6 +678,10 @@ def run(ctx):
             stats['cmd_kinds'][c[0]] = stats['cmd_kinds'].get(c[0], 0) + 1
         free_full = env.run(script)
         free = env.run(render(stripped)) if len(stripped) != len(cmds) else free_full
+        # a script whose own row/column numbers lie outside the matrix ends with IndexError
+        # whatever the devices do: outside the property's triggers, kept for the model only
+        self_aborting = any(o['abort'] is not None and o['abort'][0] == 'IndexError' for o in (free, free_full))
+        stats['self_aborting_scripts'] += self_aborting
         plans, exhaustive = plans_for(rng, free['requests'], exhaustive_upto=upto, n_random=14 if thorough else 6)
         plans = [set(p) for p in extra_plans] + plans
         if exhaustive:
@@ -696,6 +705,11 @@ def run(ctx):
                     stats['abandoned_requests'] += 1
                 elif len(r['outcomes']) > 1:
                     stats['retried_requests'] += 1
+            # --- correspondence with the model ---
+            expected = abort_reason(obs['abort']) + '|' + show_trace(env.ids, obs['requests'])
+            env.group['runs'].append('mkrun %d %s %s %s' % (cid, coq_plan(env.ids, plan), coq_list([coq_cmd(c) for c in cmds]), coq_str(expected)))
+            if self_aborting:
+                continue
             # --- oracle: classification here, verdict by the specification in Coq ---
             v = py_judge(env.ids, healthy, obs, free, payloads=not dirty)
             spec_expect[cid] = v
@@ -725,9 +739,6 @@ def run(ctx):
             if obs['abort'] is None and obs['giving_up'] < lost_wrapped:
                 ctx.counterexample('C12/abandoned-without-log-entry', '%s: %d requests abandoned, %d log entries'
                                    % (where, lost_wrapped, obs['giving_up']), replay)
-            # --- correspondence with the model ---
-            expected = abort_reason(obs['abort']) + '|' + show_trace(env.ids, obs['requests'])
-            env.group['runs'].append('mkrun %d %s %s %s' % (cid, coq_plan(env.ids, plan), coq_list([coq_cmd(c) for c in cmds]), coq_str(expected)))
             if len(ctx.samples) < 5 and plan and counter[0] % 97 == 0:
                 ctx.sample({'population': brief(pop), 'script': script, 'fault_plan': sorted(plan),
                             'requests': show_trace(env.ids, obs['requests']), 'ended': abort_reason(obs['abort'])})
